@@ -46,6 +46,7 @@ HISTS = {
     "update-adj": [("T", "new"), ("update", None), ("T", "new"), ("T", "new"), ("T", "sum")],
     "cplx-rhs": [("N", "cplx"), ("N", "new")],
     "cplxconst-rhs": [("N", "cplxconst"), ("N", "new")],
+    "cplx-span": [("N", "cplxconst"), ("N", "conjprev"), ("N", "realsum")],
     "x0": [("N", "new"), ("N", "newx0"), ("T", "newx0"), ("N", "blocknewx0")],
 }
 
@@ -69,7 +70,7 @@ def items(tier):
     for mclass in ("general", "symmetric", "hermitian", "complex-symmetric"):
         for zp in patterns(2, mclass):
             for hname, h in HISTS.items():
-                if hname == "cplxconst-rhs":
+                if hname in ("cplxconst-rhs", "cplx-span"):
                     continue
                 if hname == "x0" and (mclass != "general" and q or zp and q):
                     continue
@@ -88,6 +89,9 @@ def items(tier):
     for mclass in ("general", "symmetric"):
         out.append(dict(kind="history", id="n2-%s-znone-cplx-then-real-dtype" % mclass, n=2, mclass=mclass, zeros=[],
                         hist="cplxconst-rhs", tol=0, logical_dtype=True, timeout=400))
+    if not q:     # (does not finish in the quick budget)
+        out.append(dict(kind="history", id="n2-general-znone-cplx-span-real-rhs", n=2, mclass="general", zeros=[], hist="cplx-span",
+                        tol=0, logical_dtype=True, timeout=900))
     # update() with a CHANGED sparsity pattern: dofs that were decoupled in the first matrix are coupled in the second
     for mclass in ("general", "symmetric"):
         for za, zb in (([[0, 1], [1, 0]], []), ([[0, 1]], [[1, 0]]), ([], [[0, 1], [1, 0]])):
@@ -211,6 +215,17 @@ def scenario(V, P, cfg):
                 np.array([complex(float(a), float(b_)) for a, b_ in vals])
             b = M @ xs
             kind_eff = "new"
+        elif kind == "conjprev":
+            # real matrix: the conjugate of a solved complex system is another (independent) solved system
+            b, xs = wrap(np.asarray(same[-1][1])).conj() if V.symbolic else np.conj(same[-1][1]), \
+                wrap(np.asarray(same[-1][2])).conj() if V.symbolic else np.conj(same[-1][2])
+            kind_eff = "new"
+        elif kind == "realsum":
+            # b1 + conj(b1) = 2 Re(b1): a REAL right-hand side in the span of the two complex ones solved before
+            rl = (lambda e: e.re if isinstance(e, C) else e) if V.symbolic else (lambda e: float(np.real(e)))
+            b = np.array([2 * rl(e) for e in np.asarray(same[-2][1])], dtype=object if V.symbolic else float)
+            xs = np.array([2 * rl(e) for e in np.asarray(same[-2][2])], dtype=object if V.symbolic else float)
+            kind_eff, expect_reuse = "realsum", True
         elif kind == "repeat":
             b, xs = same[-1][1], same[-1][2]
             kind_eff, expect_reuse = "repeat", True
